@@ -249,11 +249,13 @@ impl C11 {
         let mut t = Tape::new(tape);
         let (u, problem) = gen_case(&mut t, &self.params);
         let rt = gen_async_runtime(&mut t);
+        // how many earlier solves of this solver were cancelled with all root requests in flight
+        let warm = t.next();
         StructCase {
             u,
             problem,
             rt,
-            extra: vec![],
+            extra: vec![warm],
             more: vec![],
         }
     }
@@ -294,6 +296,25 @@ impl C11 {
             }
         }
         let k_root = root_names.len();
+        // The solver may have a history: earlier solves of the same problem that the provider
+        // cancelled at the moment the last of the root's candidate requests was about to start,
+        // i.e. with all the others in flight (they are dropped). Whatever bookkeeping the
+        // cache keeps about requests has to survive that; the final solve is then observed.
+        let warm_max = if self.params.min_pkgs >= 100 { 9 } else { 3 };
+        let warm = sc.extra.first().map_or(0, |&v| (v as usize * warm_max) >> 16);
+        if k_root >= 2 {
+            for _ in 0..warm {
+                let res = session.solve(&c.problem, Cancel::Transient(k_root as u64 - 1), false, false);
+                rep.evaluations += 1;
+                if let Some(f) = abnormal(&res.outcome, Cancel::Transient(k_root as u64 - 1)) {
+                    rep.failure = Some(f);
+                    return;
+                }
+                if matches!(res.outcome, Outcome::Cancelled(_)) {
+                    rep.labels.push("after-cancelled-solves");
+                }
+            }
+        }
         let max_outstanding = std::rc::Rc::new(std::cell::Cell::new(0usize));
         let mo = max_outstanding.clone();
         *sched.observer.borrow_mut() = Some(Box::new(move |q: &Quiescent| -> Result<(), String> {
@@ -450,10 +471,61 @@ pub struct C12 {
     pub stage: &'static str,
     /// sample at most this many poll indices per mode (0 = all)
     pub max_indices: usize,
+    /// universes that are conflict-free by construction (thousands of root requirements can
+    /// then be propagated in one round without an early conflict)
+    pub conflict_free: bool,
 }
 
 impl C12 {
     fn decode(&self, tape: &[u16]) -> StructCase {
+        if self.conflict_free {
+            let mut sc = crate::props::more::decode_conflict_free(tape, &self.params, true, 8);
+            // In half of the cases one constrains entry between the preferred candidates of two
+            // root-required packages makes the problem unsatisfiable. The package of the
+            // constraining candidate hints that dependencies are available, so the clause
+            // exists when both candidates become units of the root's propagation round: the
+            // conflict is met late in a long round, after thousands of clauses have been
+            // visited without one.
+            let pick = |i: usize| sc.extra.get(i).copied().unwrap_or(0) as usize;
+            let roots: Vec<usize> = {
+                let mut v: Vec<usize> = sc
+                    .problem
+                    .reqs
+                    .iter()
+                    .filter_map(|r| match r {
+                        Req::Single(vs) => Some(sc.u.vsets[*vs].pkg),
+                        Req::Union(_) => None,
+                    })
+                    .collect();
+                v.sort_unstable();
+                v.dedup();
+                v
+            };
+            if pick(60) & 1 == 1 && roots.len() >= 2 {
+                let a = roots[pick(61) * roots.len() >> 16];
+                let b = roots[pick(62) * roots.len() >> 16];
+                if a != b {
+                    // the preferred candidate of a requirement = first member of its ranking
+                    let first_of = |u: &Universe, pkg: usize| -> Option<usize> {
+                        sc.problem.reqs.iter().find_map(|r| match r {
+                            Req::Single(vs) if u.vsets[*vs].pkg == pkg => u.vs_ranked(*vs).first().map(|s| s.idx),
+                            _ => None,
+                        })
+                    };
+                    if let (Some(ta), Some(tb)) = (first_of(&sc.u, a), first_of(&sc.u, b)) {
+                        let nb = sc.u.packages[b].cands.len();
+                        let id = sc.u.vsets.iter().map(|v| v.id).max().unwrap_or(0) + 1;
+                        sc.u.vsets.push(VSet { id, pkg: b, matches: (0..nb).filter(|&i| i != tb).collect() });
+                        let vs = sc.u.vsets.len() - 1;
+                        sc.u.packages[a].hint = Hint::All;
+                        if let Deps::Known { constrains, .. } = &mut sc.u.packages[a].cands[ta].deps {
+                            constrains.push(vs);
+                        }
+                    }
+                }
+            }
+            return sc;
+        }
         decode_case(tape, &self.params, 8)
     }
 
@@ -474,6 +546,9 @@ impl C12 {
             return;
         }
         let total = dry.polls;
+        if std::env::var_os("VERIF_C12_TRACE").is_some() {
+            eprintln!("C12 dry run: {} polls, outcome {}, {} root requirements, {} provider calls", total, dry.outcome.kind(), c.problem.reqs.len(), dry.log.len());
+        }
         // polls of the hard problem alone (to classify "during a soft requirement's run")
         let hard_polls = if c.problem.soft.is_empty() {
             total
